@@ -10,8 +10,11 @@ V = os.path.dirname(os.path.dirname(os.path.abspath(__file__)))
 props = [json.loads(l) for l in open(os.path.join(V, "properties.jsonl"))]
 
 TRUST = ("Trusted base: Lean 4.33 kernel + Mathlib (axioms propext/Classical.choice/Quot.sound only, audited by #print axioms "
-         "on every run); the hand-written Lean model of the code (FDApy itself is modelled, not verified) tied to /repo by the "
-         "correspondence run of the same check (seeded sample, exact rational model value vs float result under a stated tolerance); "
+         "on every run); the hand-written Lean model of the code (FDApy itself is modelled, not verified) tied to /repo (a) by the "
+         "correspondence run of the same check (seeded sample, exact rational model value vs float result under a stated tolerance) and "
+         "(b) where a translator exists, by Lean definitions regenerated from the source on every run (Python ast -> a small vocabulary "
+         "whose meaning is stated in lean/FDAModel/Core/Np*.lean, Py*.lean; the translators harness/cXX_translate.py and that vocabulary "
+         "are trusted; an unrecognised source shape falls back on a reference translation and is reported in the evidence, not as an alarm); "
          "LAPACK/SciPy/pandas/NumPy-RNG are parameters with the contracts of DESIGN.md §2; IEEE rounding is not modelled.")
 
 # id -> (technique, level text, partial note)
